@@ -4,6 +4,7 @@ package forwarder
 
 import (
 	"github.com/khirono/go-nl"
+	"github.com/wmnsk/go-pfcp/ie"
 
 	"github.com/free5gc/go-gtp5gnl"
 )
@@ -75,3 +76,40 @@ func ZZ_C15_Batch() {
 	sizes := []int{1, limit - 1, limit, limit + 1, 2 * limit, 2*limit + 1}
 	zzC15Batch(sizes[nondetChoice("size", len(sizes))])
 }
+
+// C15, "URR removal always unregisters": Gtp5g.RemoveURR must take the URR out of the periodic
+// registration whatever the kernel says about the removal itself - a final report, no report, or an
+// error (the rule was never installed, netlink failure) - otherwise ticks keep querying a URR that
+// the control plane has dropped.
+func zzC15RemoveUnregisters() {
+	k := zzInstallKernel()
+	g := zzGtp5g(7)
+	seid := nondetU64("seid")
+	id := nondetBytes("urrid", 4)
+	urr := uint32(id[0])<<24 | uint32(id[1])<<16 | uint32(id[2])<<8 | uint32(id[3])
+	outcome := nondetChoice("kernel-answer", 3)
+	k.reply = func(k *zzKernel, r zzReq) ([]nl.Msg, error) {
+		switch outcome {
+		case 0:
+			return zzReportsMsg([]zzRep{{urr: urr, seid: seid}}), nil
+		case 1:
+			return nil, nil
+		}
+		return nil, errZZNoEnt
+	}
+	zzPerio().ZZDrain()
+	g.RemoveURR(seid, ie.NewGroupedIE(ie.RemoveURR, ie.New(ie.URRID, id)))
+	evs := zzPerio().ZZDrain()
+	n := 0
+	for _, e := range evs {
+		if e.Type == 2 && e.SEID == seid && e.URRID == urr {
+			n++
+		} else {
+			zzAssert("C15.remove.no-other-event", false)
+		}
+	}
+	zzAssert("C15.remove.unregistered-whatever-the-kernel-answers", n == 1)
+	zzCover("C15.remove.done")
+}
+
+func ZZ_C15_RemoveUnregisters() { zzC15RemoveUnregisters() }
